@@ -17,7 +17,7 @@ TWEAKS = {
     "C08": {"optimize": 9.0, "ttno": 3.0, "ttns_random": 3.0, "compress": 1.5, "add": 1.0, "apply": 0.5, "observe": 0.5, "evolve": 0.5, "dump_load": 0.0, "max_entangled": 0.0},
     "C05": {"compress": 8.0, "add": 3.0, "apply": 3.0, "observe": 0.5, "evolve": 1.5, "ttns_random": 3.0},
     "C06": {"evolve": 3.0, "add": 3.0, "apply": 3.0, "compress": 2.0, "canonicalise": 2.0, "observe": 0.5, "max_entangled": 0.6},
-    "C13": {"evolve": 4.0, "observe": 5.0, "drop": 1.0, "scale": 2.0, "compress": 2.0, "canonicalise": 2.0, "dump_load": 0.6},
+    "C13": {"evolve": 4.0, "observe": 5.0, "drop": 1.0, "scale": 3.0, "unary": 3.5, "compress": 2.0, "canonicalise": 2.0, "dump_load": 0.6},
     "C12": {"evolve": 9.0, "lockstep": 1.5, "max_entangled": 1.0, "ttno": 2.5, "ttns_random": 2.5, "observe": 0.8, "add": 0.8, "apply": 0.8, "compress": 0.5, "dump_load": 0.2},
 }
 
